@@ -36,7 +36,8 @@ func version(k int, uniq string) *mach.ASpec {
 		"n0": {BType: "message", Branches: []mach.ABranch{
 			{HasPat: true, Pat: map[string]interface{}{"go" + uniq: x}, Target: "n1"},
 			{HasPat: true, Pat: map[string]interface{}{"fail" + uniq: x}, Target: "bad"},
-			{HasPat: true, Pat: map[string]interface{}{"nat" + uniq: x}, Target: "nat"}}},
+			{HasPat: true, Pat: map[string]interface{}{"nat" + uniq: x}, Target: "nat"},
+			{HasPat: true, Pat: map[string]interface{}{"likes" + uniq: []interface{}{x, "chips", "tacos"}}, Target: "n1"}}},
 		"n1": {Act: []mach.Op{{Name: "emit", V: map[string]interface{}{"v": tag, "at": "n1"}}, {Name: "set", K: "ver", V: tag}, {Name: "setfrom", K: "last", K2: x}},
 			BType: "bindings", Branches: []mach.ABranch{
 				{HasPat: true, Pat: map[string]interface{}{x: float64(k)}, Guard: []mach.Op{{Name: "set", K: "guarded", V: tag}}, Target: "n2"},
@@ -104,11 +105,16 @@ func history(id int, rng *rand.Rand) O {
 	}
 	ni := 3 + rng.Intn(4)
 	inputs := make([]input, ni)
-	kinds := []string{"go", "fail", "nat"}
+	kinds := []string{"go", "fail", "nat", "likes"}
 	for i := range inputs {
 		var ms []interface{}
 		for j, n := 0, 1+rng.Intn(3); j < n; j++ {
-			ms = append(ms, map[string]interface{}{kinds[rng.Intn(3)] + uniq: float64(1 + rng.Intn(3))})
+			k := kinds[rng.Intn(4)]
+			var v interface{} = float64(1 + rng.Intn(3))
+			if k == "likes" {
+				v = []interface{}{"tacos", float64(1 + rng.Intn(3)), "chips"}
+			}
+			ms = append(ms, map[string]interface{}{k + uniq: v})
 		}
 		inputs[i] = input{bs: match.Bindings{"who": float64(i), "p!": "keep"}, msgs: ms}
 	}
